@@ -447,24 +447,58 @@ where
     let threads = std::env::var("MC_THREADS").ok().and_then(|s| s.parse().ok()).unwrap_or_else(|| {
         std::thread::available_parallelism().map(|x| x.get()).unwrap_or(8)
     });
+    let nthreads = threads.min(n.max(1));
+    // a work item that does not come back (the code under test loops forever) must not hang the check: a monitor
+    // thread ends the process with a machinery exit code; the verdict on non-termination is C07's, whose cases run
+    // in watched subprocesses
+    let limit_s: u64 = std::env::var("MC_ITEM_LIMIT_S").ok().and_then(|s| s.parse().ok()).unwrap_or(if rep.quick() { 600 } else { 7200 });
+    let started: Vec<std::sync::atomic::AtomicU64> = (0..nthreads).map(|_| std::sync::atomic::AtomicU64::new(0)).collect();
+    let current: Vec<std::sync::atomic::AtomicUsize> = (0..nthreads).map(|_| std::sync::atomic::AtomicUsize::new(usize::MAX)).collect();
+    let done = std::sync::atomic::AtomicBool::new(false);
+    let t0 = Instant::now();
     let next = std::sync::atomic::AtomicUsize::new(0);
     std::thread::scope(|s| {
-        for _ in 0..threads.min(n.max(1)) {
-            s.spawn(|| {
-                crate::drive::install_panic_hook();
-                let mut local = Local::default();
-                loop {
-                    let i = next.fetch_add(1, Ordering::Relaxed);
-                    if i >= n {
-                        break;
-                    }
-                    f(i, &mut local);
-                    if local.evals > 1_000_000 {
-                        rep.merge(std::mem::take(&mut local));
+        s.spawn(|| {
+            while !done.load(Ordering::Relaxed) {
+                std::thread::sleep(std::time::Duration::from_millis(500));
+                let now = t0.elapsed().as_secs();
+                for t in 0..nthreads {
+                    let i = current[t].load(Ordering::Relaxed);
+                    let st = started[t].load(Ordering::Relaxed);
+                    if i != usize::MAX && now > st + limit_s {
+                        eprintln!("MACHINERY: {} work item {i} of {n} did not return within {limit_s} s (non-termination of the code under test, or an item that is too large); no verdict", rep.prop);
+                        println!("MACHINERY: {} work item {i} of {n} did not return within {limit_s} s; no verdict", rep.prop);
+                        std::process::exit(3);
                     }
                 }
-                rep.merge(local);
-            });
+            }
+        });
+        let workers: Vec<_> = (0..nthreads)
+            .map(|t| {
+                let (started, current, next, f) = (&started, &current, &next, &f);
+                s.spawn(move || {
+                    crate::drive::install_panic_hook();
+                    let mut local = Local::default();
+                    loop {
+                        let i = next.fetch_add(1, Ordering::Relaxed);
+                        if i >= n {
+                            break;
+                        }
+                        started[t].store(t0.elapsed().as_secs(), Ordering::Relaxed);
+                        current[t].store(i, Ordering::Relaxed);
+                        f(i, &mut local);
+                        current[t].store(usize::MAX, Ordering::Relaxed);
+                        if local.evals > 1_000_000 {
+                            rep.merge(std::mem::take(&mut local));
+                        }
+                    }
+                    rep.merge(local);
+                })
+            })
+            .collect();
+        for w in workers {
+            let _ = w.join();
         }
+        done.store(true, Ordering::Relaxed);
     });
 }
